@@ -233,18 +233,23 @@ func selfTest(pr *rules.Property, base *an.Prog, outDir string, findings []an.Fi
 		jobs = append(jobs, j)
 	}
 	// changes written by independent sub-agents and adopted under <out>/seeded/<PROP>-<k>/ (patch.diff + meta.json)
-	seeds, _ := filepath.Glob(filepath.Join(outDir, "seeded", pr.ID+"-*", "patch.diff"))
+	seeds, _ := filepath.Glob(filepath.Join(outDir, "seeded", "*", "patch.diff"))
 	for _, pf := range seeds {
 		dir := filepath.Dir(pf)
 		name := "seeded/" + filepath.Base(dir)
 		var meta struct {
-			Expect string `json:"expect_rule"`
+			Property string            `json:"property"`
+			Expect   string            `json:"expect_rule"`
+			ByProp   map[string]string `json:"expect_by_property"`
 		}
 		if b, err := os.ReadFile(filepath.Join(dir, "meta.json")); err == nil {
 			json.Unmarshal(b, &meta)
 		}
+		if meta.Property != pr.ID {
+			meta.Expect = meta.ByProp[pr.ID] // a change seeded for another property that this one's rules also report
+		}
 		if meta.Expect == "" {
-			continue // adopted but (not yet) claimed to be detected by this property's rules
+			continue // adopted but not (claimed to be) detected by this property's rules
 		}
 		files, err := applyPatch(repo, pf)
 		j := job{name: name, rule: meta.Expect, files: files}
